@@ -154,6 +154,36 @@ func corpus(e *ev.Env) {
 			runHistory(e, c, cf, st, false)
 		})
 	}
+	// ExpirationGenerator answers 0 / 1 ms / 500 ms / 999 ms: zero whole seconds of lifetime; two
+	// seconds later (and later still) the response must not be served
+	for _, vs := range []bool{false, true} {
+		name := "generated-subsecond-expiration-memory"
+		if vs {
+			name = "generated-subsecond-expiration-vstore"
+		}
+		e.Corpus(name, func(c *ev.Case) {
+			cf := conf{Exp: 5, ExpGen: true, VStore: vs, StoreHdr: true, MaxBytes: 4096}
+			var st []step
+			for i, ms := range []string{"0", "1", "500", "999"} {
+				k := "z" + strconv.Itoa(i)
+				st = append(st, step{Q: rq{Method: "GET", Key: k, Status: 200, Size: 100, SubSec: ms}},
+					step{Adv: 2, Q: rq{Method: "GET", Key: k, Status: 500, Size: 10}},
+					step{Adv: 1, Q: rq{Method: "GET", Key: k, Status: 500, Size: 10}})
+			}
+			// control: a generated 3 s lifetime is served in between
+			st = append(st, step{Q: rq{Method: "GET", Key: "c", Status: 200, Size: 100, ExpSec: 3}}, step{Adv: 2, Q: rq{Method: "GET", Key: "c", Status: 500, Size: 10}})
+			g := runHistory(e, c, cf, st, false)
+			mark := ""
+			for _, q := range g.reqs {
+				if q.Key == "c" && !q.Probe {
+					mark = q.Mark
+				}
+			}
+			if mark != "hit" {
+				e.Inconclusive("generated-expiration control did not hit: " + mark)
+			}
+		})
+	}
 	// CacheInvalidator returns true for a key the external storage does not hold: manager.get
 	// hands out a zero item (heapidx 0), the middleware marks it expired and removes heap index 0.
 	e.Corpus("invalidator-absent-entry-empty-heap", func(c *ev.Case) {
